@@ -1,6 +1,7 @@
 import SplVerif.Driver.Dump
 import SplVerif.Driver.OpsLex
 import SplVerif.Model.Parser
+import SplVerif.Spec.Grammar
 
 namespace Spl.Ops
 open Spl Spl.Wire
@@ -10,6 +11,50 @@ def parseText (s : List Char) : Except Panic Program :=
   | .error p => .error p
   | .ok ts => Parse.parse ts
 
+def declDumps (p : Program) : List (Nat × String) :=
+  p.decls.map (fun r => (r.offset, Dump.global (r.val.mapInfo removeMessages)))
+
+/-- C05 evaluated on the model (same check as the harness runs on the implementation). -/
+def containProp (t0 t1 : List Char) (k n : Nat) : String :=
+  match AnalyzedSource.new t0, AnalyzedSource.new t1 with
+  | .ok a, .ok b =>
+    let da := declDumps a.ast
+    let db := declDumps b.ast
+    if da.length != n then s!"bad:original-has-{da.length}-declarations" else
+    let suffix := n - k - 1
+    if db.length < k + suffix then s!"bad:damaged-program-has-only-{db.length}-declarations" else
+    match (List.range k).find? (fun i => da[i]? != db[i]?) with
+    | some i => s!"bad:declaration-{i}-before-the-damage-changed"
+    | none =>
+      match (List.range suffix).find? (fun i =>
+          (da[n - 1 - i]?).map (·.2) != (db[db.length - 1 - i]?).map (·.2)) with
+      | some i => s!"bad:declaration-{n - 1 - i}-after-the-damage-changed"
+      | none =>
+        let toks := b.tokens.toArray
+        let segLo : Nat := if k == 0 then 0 else
+          match b.ast.decls[k - 1]? with
+          | some g => (toks[g.offset + g.val.info.range.hi - 1]?).map (·.range.hi) |>.getD 0
+          | none => 0
+        let segHi : Nat := if suffix == 0 then utf8Len t1 else
+          match b.ast.decls[db.length - suffix]? with
+          | some g =>
+            let rec skip (fuel i : Nat) : Nat := match fuel with
+              | 0 => i
+              | f + 1 => match toks[i]? with
+                | some t => if t.kind == .Comment then skip f (i + 1) else i
+                | none => i
+            (toks[skip toks.size g.offset]?).map (·.range.lo) |>.getD 0
+          | none => 0
+        match b.errors with
+        | .error e => s!"bad:{panicStr e}"
+        | .ok errs =>
+          match errs.find? (fun e => (e.msg.cls == .lex || e.msg.cls == .parse) &&
+              (e.range.lo < segLo || e.range.hi > segHi)) with
+          | some e => s!"bad:syntax-diagnostic-{e.range.lo}-{e.range.hi}-outside-damaged-declaration-{segLo}-{segHi}"
+          | none => "ok"
+  | .error e, _ => s!"bad:{panicStr e}"
+  | _, .error e => s!"bad:{panicStr e}"
+
 def parseOps (op : String) (args : List String) (_impl : String) : Option String :=
   match op, args with
   | "PARSE", [t] =>
@@ -17,6 +62,18 @@ def parseOps (op : String) (args : List String) (_impl : String) : Option String
       match parseText s with
       | .ok p => Dump.program p
       | .error e => panicStr e
+  | "PROPCONTAIN", [t0, t1, k, n] =>
+    match textOfHex t0, textOfHex t1, k.toNat?, n.toNat? with
+    | some t0, some t1, some k, some n => some (containProp t0 t1 k n)
+    | _, _, _, _ => none
+  | "SPECPARSE", [t] =>
+    (textOfHex t).map fun s =>
+      match lex s with
+      | .error _ => "n/a"
+      | .ok ts =>
+        match Grammar.parse ts with
+        | some p => Dump.program p
+        | none => "n/a"
   | "NEW", [t] =>
     (textOfHex t).map fun s =>
       match AnalyzedSource.new s with
